@@ -103,6 +103,8 @@ class Machine:
                         vals[dl] = ("discr", 0 if vals[pl["l"]][1] == "ok" else 1)
                     else:
                         vals.pop(dl, None)
+                elif r["k"] == "agg" and r["ak"].get("t") == "adt" and r["ak"]["adt"].endswith("result::Result") and r["ak"].get("variant") in ("Ok", "Err"):
+                    vals[dl] = ("res", "ok" if r["ak"]["variant"] == "Ok" else "err")
                 elif r["k"] == "un" and r["op"] == "Not":
                     pl = r["a"].get("c") or r["a"].get("m")
                     if pl and not pl["p"] and pl["l"] in vals and vals[pl["l"]][0] == "bool":
@@ -139,6 +141,14 @@ class Machine:
             if kind == "call":
                 outs = self.classify(self, bb, t, st)
                 dest = t["dest"]["l"] if not t["dest"]["p"] else None
+                # `?` plumbing keeps what is known about a Result: Try::branch(r) is Continue iff r is Ok (same discriminant numbering),
+                # FromResidual::from_residual(..) is an Err
+                if outs == [(st, None)] and t.get("name") == "branch" and "try_trait" in (t.get("f") or "") and t["args"]:
+                    apl = t["args"][0].get("c") or t["args"][0].get("m")
+                    if apl and not apl["p"] and vals.get(apl["l"], (None,))[0] == "res":
+                        outs = [(st, vals[apl["l"]])]
+                elif outs == [(st, None)] and t.get("name") == "from_residual" and "try_trait" in (t.get("f") or ""):
+                    outs = [(st, ("res", "err"))]
                 if t["t"] is None:
                     continue
                 for st2, resval in outs:
@@ -346,6 +356,17 @@ def analyse(ck):
             mm.violations.append({"state": st.show(), "clause": "unmodelled filesystem mutation %s" % f, "where": mm.body.loc(bb), "bb": bb})
         if name == "new" and "CircuitBinsConfig" in f:
             return [(st, ("res", "ok")), (st, ("res", "err"))]
+        # the generation steps written out (the closure turned into a private function that was expanded in place, or never was a
+        # closure): a workspace call that is handed the staging path writes into the staging directory; the set is complete once
+        # `config.save(staging)` — documented as written last — has succeeded
+        argt = [fr.operand_term(a) for a in t["args"]]
+        if any("create_staging_dir" in T.show(x, maxdepth=4) for x in argt) and not f.startswith(("std::", "core::", "alloc::")) and "Result" in (mm.body.local_ty(t["dest"]["l"]) if t.get("dest") else ""):
+            mm.gen_caps = list(getattr(mm, "gen_caps", [])) + [P.param_path(x) or T.show(x, maxdepth=3) for x in argt]
+            if name == "save" and "CircuitBinsConfig" in (f + (t.get("impl_adt") or "")):
+                mm.ops[bb] = "config.save(staging)"
+                return [(st.with_(stg="new"), ("res", "ok")), (st.with_(stg="partial"), ("res", "err"))]
+            mm.ops[bb] = "generate into staging (%s)" % name
+            return [(st.with_(stg="partial"), ("res", "ok")), (st.with_(stg="partial"), ("res", "err"))]
         return [(st, None)]
 
     g = Machine(ck, gen, classify_gen)
@@ -354,8 +375,9 @@ def analyse(ck):
     ob.add({"C23"}, not g.violations, "TS", "generate/invariant-at-every-point",
            "the same invariant holds at every reachable point of generate_all_circuit_binaries, including after commit_staging_dir returned an error (%d pairs, %d transitions)" % (len(g.states), g.transitions),
            "%s:%s" % (gen.file, gen.line), g.violations[:4])
-    ob.add({"C23"}, not any(str(c).startswith("output_dir") for c in g.gen_caps) and any(str(c).startswith("create_staging_dir(") for c in g.gen_caps), "PROV", "generate/closure-captures",
-           "the generation closure captures the staging path and never the output path: %s" % g.gen_caps, "%s:%s" % (gen.file, gen.line))
+    outp = gen.local_name(1) or "output_path"
+    ob.add({"C23"}, not any(str(c) == outp or str(c).startswith(outp + ".") for c in g.gen_caps) and any(str(c).startswith("create_staging_dir(") for c in g.gen_caps), "PROV", "generate/closure-captures",
+           "the generation step (closure, or the calls it consists of) is handed the staging path and never the output path `%s`: %s" % (outp, g.gen_caps), "%s:%s" % (gen.file, gen.line))
     bad = []
     n_err_gen = 0
     for st, ret in g.returns:
